@@ -38,6 +38,15 @@
 (*     an `executable` (absent = empty); in the output section an absent   *)
 (*     description/type reads back as null; stage identifiers `stageN`     *)
 (*     and N denote the same stage.                                        *)
+(* Names.  The legacy format turns names into section headers             *)
+(* ([ENV-<NAME>], [<component>], [<output>], [STAGE<k>], stage<k> files)   *)
+(* and option names (variables, environment variables).  Family "names"    *)
+(* enumerates every single name and every pair of names of the explicit    *)
+(* alphabet of module DosiniCatalogue (hyphens, dots, underscores, digits, *)
+(* mixed case, one name a prefix of another, names containing the section  *)
+(* prefix, ':' and '=' inside section headers) and an instance with 11     *)
+(* stages (indices >= 10).                                                 *)
+(*                                                                         *)
 (* Options without a legacy keyword (UnsupportedPaths) and values without  *)
 (* a legacy text (atoms with expr = FALSE) are outside the quantifier of   *)
 (* the property ("every workflow expressible in the legacy format").       *)
@@ -53,13 +62,15 @@
 (***************************************************************************)
 EXTENDS Integers, Sequences, FiniteSets, TLC, Json, DosiniCatalogue
 
-CONSTANTS Family,      \* "options" | "variables" | "environments" | "status" | "output"
+CONSTANTS Family,      \* "options" | "variables" | "environments" | "status" | "output" | "names"
           Tier,        \* "quick" | "thorough": size of the enumerated family
           Emit,        \* TRUE: print every case (instance + expected view) as JSON in state "loaded"
           Fault        \* "none", or a named deviation of the frontend used as reachability witness:
                        \*   "parse-drops-max-restarts"  the loader knows the keyword but stores nothing for it
                        \*   "two-options-one-keyword"   the writer puts gracePeriod under the keyword of namespace
                        \*   "no-migration"              the writer forgets the global variables in [META]
+                       \*   "env-name-cut-at-hyphen"    the reader recovers an environment name from [ENV-<NAME>] by
+                       \*                               splitting at '-' instead of dropping the 4-character prefix
 
 VARIABLES phase,   \* "instance" -> "dumped" -> "loaded" -> "dumped2" -> "loaded2"
           inst,    \* the abstract instance that is written
@@ -82,21 +93,29 @@ ExprAtoms == {a \in Atoms : a.expr}
 ASSUME KeysInjective == \A a, b \in Atoms : (a.key = b.key) <=> (a.path = b.path)
 ASSUME BackendKeyFree == BackendKey \notin Keys /\ BackendPath \notin Paths
 ASSUME NoUnsupportedInCatalogue == UnsupportedPaths \cap Paths = {}
-ASSUME VariablesAreNotKeywords == VarNames \cap LegacyKeys = {} /\ "refVar" \notin LegacyKeys
+ASSUME VariablesAreNotKeywords == (VarNames \cup VarNamePool) \cap LegacyKeys = {} /\ "refVar" \notin LegacyKeys
 ASSUME EnvNamesDistinct == \A m, n \in EnvNames : (EnvLower(m) = EnvLower(n)) => m = n
-ASSUME NothingReserved == /\ {EnvLower(n) : n \in EnvNames} \cap ReservedSections = {}
-                          /\ {"prod", "c"} \cap ReservedSections = {}
+(* the section header identifies the environment: two names share a header only when they are the same environment *)
+ASSUME EnvSectionsIdentify == \A m, n \in EnvNames \cup EnvNamePool :
+                                 /\ (EnvSection(m) = EnvSection(n)) <=> (EnvLower(m) = EnvLower(n))
+                                 /\ EnvNameOfSection(EnvSection(m)) = EnvLower(m)
+ASSUME NothingReserved == /\ {EnvLower(n) : n \in EnvNames \cup EnvNamePool} \cap ReservedSections = {}
+                          /\ ({"prod", "c"} \cup CompNamePool \cup OutNamePool) \cap ReservedSections = {}
 
 ---------------------------------------------------------------------------
-(* Fixed shape of the modelled instance *)
-CompNames == {"prod", "c"}
-StageOf(c) == IF c = "prod" THEN 0 ELSE 1
-Stages == {0, 1}
-StageFile(k) == IF k = 0 THEN "stages.d/stage0.instance.conf" ELSE "stages.d/stage1.instance.conf"
-StageScope(k) == IF k = 0 THEN "stage0" ELSE "stage1"
-CompScope(c) == IF c = "prod" THEN "comp:prod" ELSE "comp:c"
+(* Shape of the modelled instance: components prod (stage 0) and c (stage 1), further components in stage 1    *)
+(* (inst.comps, family "names"), and one filler component per stage 2 .. nstages-1 (an instance load needs a    *)
+(* stage file for every stage index).                                                                           *)
+Comp(n, k) == [name |-> n, stage |-> k]
+Filler(k) == "f" \o ToString(k)
+CompsOf(i) == {Comp("prod", 0), Comp("c", 1)} \cup {Comp(n, 1) : n \in i.comps} \cup {Comp(Filler(k), k) : k \in 2..(i.nstages - 1)}
+StagesOf(i) == 0..(i.nstages - 1)
+AllStages == 0..(ManyStages - 1)
+StageFile(k) == "stages.d/stage" \o ToString(k) \o ".instance.conf"
+StageScope(k) == "stage" \o ToString(k)
+CompScope(n) == "comp:" \o n
 VarScopes == {"global", "stage0", "stage1", "comp:prod", "comp:c"}
-StatusSection(k) == IF k = 0 THEN "STAGE0" ELSE "STAGE1"
+StatusSection(k) == "STAGE" \o ToString(k)
 VariablesSection(k) == StatusSection(k)
 EnvFile == "experiment.instance.conf"
 VarFile == "variables.conf"
@@ -111,9 +130,9 @@ NoVal == V("none", "", 0)
 
 ---------------------------------------------------------------------------
 (* Families of instances *)
-Neutral == [fam |-> Family, backend |-> "local", layer |-> "component", inject |-> FALSE, opts |-> {},
+Neutral == [fam |-> Family, kind |-> "", backend |-> "local", layer |-> "component", inject |-> FALSE, opts |-> {},
             vars |-> {}, envs |-> {}, apps |-> 0, venvs |-> 0,
-            status |-> <<>>, output |-> {}]
+            status |-> <<>>, output |-> {}, comps |-> {}, nstages |-> 2]
 
 NativeOf(S) == IF \E a \in S : a.section = "resourceManager.lsf" THEN "lsf"
                ELSE IF \E a \in S : a.section = "resourceManager.kubernetes" THEN "kubernetes" ELSE "local"
@@ -172,19 +191,42 @@ OutputCases == {{}} \cup {{o} : o \in {x \in OutEntries : WellFormedOut(x)}}
                \cup {{o1, o2} : o1 \in {x \in OutEntries : WellFormedOut(x) /\ x.name = "Out" /\ x.desc \in {"absent", "plain"}},
                                 o2 \in {x \in OutEntries : WellFormedOut(x) /\ x.name = "out" /\ x.type = "csv" /\ x.desc = "plain"}}
 
+(* names: every single name and every pair of names of a kind, taken from the explicit alphabet of the catalogue *)
+OneOrTwo(P) == {{a, b} : a \in P, b \in P}
+VarPlaces == {"global", "stage1", "comp:c"}
+ManyStagesStatus == [k \in 1..ManyStages |-> [w |-> IF k = ManyStages THEN 10000 - 900 * (ManyStages - 1) ELSE 900,
+                                               form |-> IF k = ManyStages THEN "exeArgsRefs2" ELSE "weight"]]
+LastScope == StageScope(ManyStages - 1)
+NameCases ==
+         {[Neutral EXCEPT !.kind = "env", !.envs = {[name |-> n, vars |-> {"PATH"}, cls |-> "dollar"] : n \in S}] :
+              S \in {T \in OneOrTwo(EnvNamePool) : \A m, n \in T : (EnvLower(m) = EnvLower(n)) => m = n}}
+    \cup {[Neutral EXCEPT !.kind = "envvar", !.envs = {[name |-> "env1", vars |-> S, cls |-> "dollar"]}] : S \in OneOrTwo(EnvVarNamePool)}
+    \cup {[Neutral EXCEPT !.kind = "comp", !.comps = S] : S \in OneOrTwo(CompNamePool)}
+    \cup UNION {{[Neutral EXCEPT !.kind = "var", !.vars = {[scope |-> f[n], name |-> n, cls |-> "punct"] : n \in S}] : f \in [S -> VarPlaces]} :
+                   S \in OneOrTwo(VarNamePool)}
+    \cup {[Neutral EXCEPT !.kind = "out", !.output = {[name |-> n, datain |-> "abs", desc |-> "plain", type |-> "csv", stages |-> "absent"] : n \in S}] :
+              S \in OneOrTwo(OutNamePool)}
+    \cup {[Neutral EXCEPT !.kind = "stages", !.nstages = ManyStages,
+                          !.status = IF "status" \in W THEN ManyStagesStatus ELSE <<>>,
+                          !.vars = IF "vars" \in W THEN {[scope |-> "global", name |-> "v", cls |-> "punct"], [scope |-> LastScope, name |-> "v", cls |-> "punct"],
+                                                         [scope |-> "global", name |-> "V", cls |-> "punct"], [scope |-> "stage1", name |-> "V", cls |-> "punct"]} ELSE {},
+                          !.output = IF "output" \in W THEN {[name |-> "Out", datain |-> "rel", desc |-> "plain", type |-> "csv", stages |-> "idxLast"]} ELSE {}] :
+              W \in SUBSET {"status", "vars", "output"}}
+
 Instances ==
     CASE Family = "options" -> {[Neutral EXCEPT !.backend = c.backend, !.layer = c.layer, !.inject = c.inject, !.opts = c.opts] : c \in OptionCases}
       [] Family = "variables" -> {[Neutral EXCEPT !.vars = S] : S \in VariableCases}
       [] Family = "environments" -> {[Neutral EXCEPT !.envs = c.envs, !.apps = c.apps, !.venvs = c.venvs] : c \in EnvironmentCases}
       [] Family = "status" -> {[Neutral EXCEPT !.status = s] : s \in StatusCases}
       [] Family = "output" -> {[Neutral EXCEPT !.output = o] : o \in OutputCases}
+      [] Family = "names" -> NameCases
 
 ---------------------------------------------------------------------------
 (* The instance as the writer sees it *)
 
 (* M2: the atoms that apply to a component after the blueprints were folded into it *)
-OptsAt(i, c) == CASE i.layer = "component" -> (IF c = "c" THEN i.opts ELSE {})
-                  [] i.layer = "stage" -> (IF StageOf(c) = 1 THEN i.opts ELSE {})
+OptsAt(i, c) == CASE i.layer = "component" -> (IF c.name = "c" THEN i.opts ELSE {})
+                  [] i.layer = "stage" -> (IF c.stage = 1 THEN i.opts ELSE {})
                   [] i.layer = "global" -> i.opts
 
 (* a varref atom needs a global variable; its name is abstracted to "refVar", its identity is the atom's idx *)
@@ -200,7 +242,7 @@ VarVal(scope, name) == V("var", scope, 0)
 ExplicitOpts(i, c) ==
     LET atomsHere == OptsAt(i, c)
         set == {[path |-> a.path, val |-> AtomVal(a)] : a \in atomsHere}
-        backend == IF c = "c" THEN {[path |-> BackendPath, val |-> V("backend", i.backend, 0)]}
+        backend == IF c.name = "c" THEN {[path |-> BackendPath, val |-> V("backend", i.backend, 0)]}
                    ELSE IF i.inject THEN {[path |-> BackendPath, val |-> DefaultVal(BackendPath)]} ELSE {}
         injected == IF i.inject THEN {[path |-> p, val |-> DefaultVal(p)] : p \in {q \in Paths : HasDefault(q) /\ q \notin {a.path : a \in atomsHere}}}
                     ELSE {}
@@ -213,6 +255,7 @@ KeyForPath(p) == IF p = BackendPath THEN BackendKey
                  ELSE IF Fault = "two-options-one-keyword" /\ p = "resourceManager.kubernetes.gracePeriod" THEN "k8s-namespace"
                  ELSE KeyOf(p)
 
+(* [META] of the file of stage k: the stage's variables over the global ones (M1) *)
 MetaLines(i, k) ==
     LET stageNames == ScopeVars(i, StageScope(k))
         globalNames == IF Fault = "no-migration" THEN {} ELSE ScopeVars(i, "global")
@@ -220,18 +263,21 @@ MetaLines(i, k) ==
      \cup {Line(StageFile(k), "META", n, VarVal("global", n)) : n \in globalNames \ stageNames}      \* M1: stage wins
      \cup (IF Fault = "no-migration" THEN {} ELSE {Line(StageFile(k), "META", "refVar", V("refvar", "", a.idx)) : a \in RefVars(i)})
 
+(* the section of a component is its name, in the file of its stage *)
 CompLines(i, c) ==
-       {Line(StageFile(StageOf(c)), c, KeyForPath(o.path), o.val) : o \in ExplicitOpts(i, c)}
-  \cup {Line(StageFile(StageOf(c)), c, n, VarVal(CompScope(c), n)) : n \in ScopeVars(i, CompScope(c))}
+       {Line(StageFile(c.stage), c.name, KeyForPath(o.path), o.val) : o \in ExplicitOpts(i, c)}
+  \cup {Line(StageFile(c.stage), c.name, n, VarVal(CompScope(c.name), n)) : n \in ScopeVars(i, CompScope(c.name))}
 
 (* variables.conf: written when missing, never read by an instance load (M2) *)
 VariablesConfLines(i) ==
        {Line(VarFile, "GLOBAL", n, VarVal("global", n)) : n \in ScopeVars(i, "global")}
-  \cup UNION {{Line(VarFile, VariablesSection(k), n, VarVal(StageScope(k), n)) : n \in ScopeVars(i, StageScope(k))} : k \in Stages}
+  \cup UNION {{Line(VarFile, VariablesSection(k), n, VarVal(StageScope(k), n)) : n \in ScopeVars(i, StageScope(k))} : k \in AllStages}
   \cup (IF i.layer = "global" THEN {Line(VarFile, "GLOBAL", KeyForPath(a.path), AtomVal(a)) : a \in i.opts} ELSE {})
   \cup (IF i.layer = "stage" THEN {Line(VarFile, VariablesSection(1), KeyForPath(a.path), AtomVal(a)) : a \in i.opts} ELSE {})
 
-EnvLinesOf(i) == UNION {{Line(EnvFile, EnvLower(e.name), n, V("envvar", EnvLower(e.name), 0)) : n \in e.vars} : e \in i.envs}
+(* the section of an environment is ENV-<NAME IN UPPER CASE>; the value of a variable is identified by environment and name *)
+EnvVarVal(envLower, n) == V("envvar", envLower \o "/" \o n, 0)
+EnvLinesOf(i) == UNION {{Line(EnvFile, EnvSection(e.name), n, EnvVarVal(EnvLower(e.name), n)) : n \in e.vars} : e \in i.envs}
 SandboxLines(i) ==
        (IF i.apps > 0 THEN {Line(EnvFile, "SANDBOX", "applications", V("list", "apps", i.apps))} ELSE {})
   \cup (IF i.venvs > 0 THEN {Line(EnvFile, "SANDBOX", "virtualenvs", V("list", "venvs", i.venvs))} ELSE {})
@@ -239,44 +285,50 @@ SandboxLines(i) ==
 HasExe(form) == form # "weight"
 HasArgs(form) == form \in {"exeArgs", "exeArgsRefs2"}
 NRefs(form) == CASE form = "exeRefs1" -> 1 [] form = "exeArgsRefs2" -> 2 [] OTHER -> 0
+StatusStages(i) == {j \in AllStages : j < Len(i.status)}
 StatusLines(i) ==
     UNION {   {Line(StatusFile, StatusSection(k), "stage-weight", V("weight", "", i.status[k + 1].w))}
          \cup (IF HasExe(i.status[k + 1].form) THEN {Line(StatusFile, StatusSection(k), "executable", V("exe", "", k))} ELSE {})
          \cup (IF HasArgs(i.status[k + 1].form) THEN {Line(StatusFile, StatusSection(k), "arguments", V("args", "", k))} ELSE {})
          \cup (IF NRefs(i.status[k + 1].form) > 0 THEN {Line(StatusFile, StatusSection(k), "references", V("list", "refs", NRefs(i.status[k + 1].form)))} ELSE {})
-         : k \in {j \in Stages : j < Len(i.status)}}
+         : k \in StatusStages(i)}
 
-(* M6: a stage identifier is written as stageN whatever its form in the instance *)
-StageSet(s) == CASE s = "idx0" -> {0} [] s = "name0" -> {0} [] s = "idx01" -> {0, 1} [] OTHER -> {}
+(* M6: a stage identifier is written as stageN whatever its form in the instance (idx0 and name0 are the same set) *)
+StageSet(s) == CASE s = "idx0" -> {0} [] s = "name0" -> {0} [] s = "idx01" -> {0, 1} [] s = "idxLast" -> {ManyStages - 1} [] OTHER -> {}
+StagesVal(s) == V("stages", "", Cardinality(StageSet(s)) * 1000 + (IF StageSet(s) = {} THEN 0 ELSE CHOOSE m \in StageSet(s) : \A x \in StageSet(s) : x <= m))
 OutputLines(i) ==
     UNION {   {Line(OutputFile, o.name, "data-in", V("datain", o.datain, 0))}
          \cup (IF o.desc # "absent" THEN {Line(OutputFile, o.name, "description", V("desc", o.desc, 0))} ELSE {})
          \cup (IF o.type # "absent" THEN {Line(OutputFile, o.name, "type", V("type", o.type, 0))} ELSE {})
-         \cup (IF o.stages # "absent" THEN {Line(OutputFile, o.name, "stages", V("stages", "", Cardinality(StageSet(o.stages)) * 10 + (IF 1 \in StageSet(o.stages) THEN 1 ELSE 0)))} ELSE {})
+         \cup (IF o.stages # "absent" THEN {Line(OutputFile, o.name, "stages", StagesVal(o.stages))} ELSE {})
          : o \in i.output}
 
 DumpOf(i) ==
-    [sections |->      {[file |-> StageFile(StageOf(c)), section |-> c] : c \in CompNames}
-                  \cup {[file |-> EnvFile, section |-> EnvLower(e.name)] : e \in i.envs}
-                  \cup {[file |-> StatusFile, section |-> StatusSection(k)] : k \in {j \in Stages : j < Len(i.status)}}
+    [sections |->      {[file |-> StageFile(c.stage), section |-> c.name] : c \in CompsOf(i)}
+                  \cup {[file |-> EnvFile, section |-> EnvSection(e.name)] : e \in i.envs}
+                  \cup {[file |-> StatusFile, section |-> StatusSection(k)] : k \in StatusStages(i)}
                   \cup {[file |-> OutputFile, section |-> o.name] : o \in i.output},
-     lines |->      UNION {MetaLines(i, k) : k \in Stages} \cup UNION {CompLines(i, c) : c \in CompNames}
+     lines |->      UNION {MetaLines(i, k) : k \in StagesOf(i)} \cup UNION {CompLines(i, c) : c \in CompsOf(i)}
                \cup VariablesConfLines(i) \cup EnvLinesOf(i) \cup SandboxLines(i) \cup StatusLines(i) \cup OutputLines(i)]
 
 ---------------------------------------------------------------------------
 (* Load: files -> instance.  An instance load reads the stage files, experiment.instance.conf, status.conf and *)
-(* output.conf; it does NOT read variables.conf.                                                               *)
+(* output.conf; it does NOT read variables.conf.  Components are the sections of the stage files, the stage    *)
+(* index is the number in the file name.                                                                       *)
 LinesOf(fs, f, s) == {l \in fs.lines : l.file = f /\ l.section = s}
 
+LoadedComps(fs) == UNION {{Comp(s.section, k) : s \in {t \in fs.sections : t.file = StageFile(k)}} : k \in AllStages}
 LoadedOpts(fs, c) ==
     {[path |-> PathOfKey(l.key), val |-> l.val] :
-        l \in {m \in LinesOf(fs, StageFile(StageOf(c)), c) :
+        l \in {m \in LinesOf(fs, StageFile(c.stage), c.name) :
                   /\ m.key \in LegacyKeys
                   /\ ~(Fault = "parse-drops-max-restarts" /\ m.key = "max-restarts")}}
-LoadedCompVars(fs, c) == {[name |-> l.key, val |-> l.val] : l \in {m \in LinesOf(fs, StageFile(StageOf(c)), c) : m.key \notin LegacyKeys}}
+LoadedCompVars(fs, c) == {[name |-> l.key, val |-> l.val] : l \in {m \in LinesOf(fs, StageFile(c.stage), c.name) : m.key \notin LegacyKeys}}
 LoadedStageVars(fs, k) == {[name |-> l.key, val |-> l.val] : l \in LinesOf(fs, StageFile(k), "META")}
 
-LoadedEnvs(fs) == {[name |-> s.section, vars |-> {[name |-> l.key, val |-> l.val] : l \in LinesOf(fs, EnvFile, s.section)}] :
+(* the name of an environment is what follows the prefix of its section header, in lower case (M5) *)
+EnvReadName(s) == IF Fault = "env-name-cut-at-hyphen" THEN EnvNameCutAtHyphen(s) ELSE EnvNameOfSection(s)
+LoadedEnvs(fs) == {[name |-> EnvReadName(s.section), vars |-> {[name |-> l.key, val |-> l.val] : l \in LinesOf(fs, EnvFile, s.section)}] :
                      s \in {t \in fs.sections : t.file = EnvFile}}
 LoadedSandbox(fs, key) == LET ls == {l \in LinesOf(fs, EnvFile, "SANDBOX") : l.key = key}
                           IN IF ls = {} THEN 0 ELSE (CHOOSE l \in ls : TRUE).val.n
@@ -291,7 +343,7 @@ LoadedStatus(fs) ==
                ELSE ValOr(LinesOf(fs, StatusFile, StatusSection(k)), "arguments", NoVal),
       refs |-> IF ValOr(LinesOf(fs, StatusFile, StatusSection(k)), "executable", NoVal) = NoVal THEN NoVal
                ELSE ValOr(LinesOf(fs, StatusFile, StatusSection(k)), "references", NoVal)] :
-        k \in {j \in Stages : [file |-> StatusFile, section |-> StatusSection(j)] \in fs.sections}}
+        k \in {j \in AllStages : [file |-> StatusFile, section |-> StatusSection(j)] \in fs.sections}}
 LoadedOutput(fs) ==
     {[name |-> s.section,
       datain |-> ValOr(LinesOf(fs, OutputFile, s.section), "data-in", NoVal),
@@ -300,9 +352,10 @@ LoadedOutput(fs) ==
       stages |-> ValOr(LinesOf(fs, OutputFile, s.section), "stages", NoVal)] : s \in {t \in fs.sections : t.file = OutputFile}}
 
 LoadOf(fs) ==
-    [opts |-> [c \in CompNames |-> LoadedOpts(fs, c)],
-     compVars |-> [c \in CompNames |-> LoadedCompVars(fs, c)],
-     stageVars |-> [k \in Stages |-> LoadedStageVars(fs, k)],
+    [comps |-> LoadedComps(fs),
+     opts |-> [c \in LoadedComps(fs) |-> LoadedOpts(fs, c)],
+     compVars |-> [c \in LoadedComps(fs) |-> LoadedCompVars(fs, c)],
+     stageVars |-> [k \in AllStages |-> LoadedStageVars(fs, k)],
      envs |-> LoadedEnvs(fs), apps |-> LoadedSandbox(fs, "applications"), venvs |-> LoadedSandbox(fs, "virtualenvs"),
      status |-> LoadedStatus(fs), output |-> LoadedOutput(fs)]
 
@@ -319,14 +372,14 @@ IsRepeat(explicit) == \E o \in explicit : o.path = "workflowAttributes.repeatInt
 Overlay(top, below) == top \cup {x \in below : x.name \notin {y.name : y \in top}}
 
 ViewOfLoaded(L) ==
-    [comps |-> [c \in CompNames |-> [opts |-> Resolve(L.opts[c]), isRepeat |-> IsRepeat(L.opts[c]),
-                                    vars |-> Overlay(L.compVars[c], L.stageVars[StageOf(c)])]],
+    [comps |-> {[name |-> c.name, stage |-> c.stage, opts |-> Resolve(L.opts[c]), isRepeat |-> IsRepeat(L.opts[c]),
+                 vars |-> Overlay(L.compVars[c], L.stageVars[c.stage])] : c \in L.comps},
      envs |-> L.envs, apps |-> L.apps, venvs |-> L.venvs, status |-> L.status, output |-> L.output]
 
-(* The expected view, computed from the instance WITHOUT going through files or keywords *)
+(* The expected view, computed from the instance WITHOUT going through files, sections or keywords *)
 ExpectedVars(i, c) ==
-    LET comp == {[name |-> n, val |-> VarVal(CompScope(c), n)] : n \in ScopeVars(i, CompScope(c))}
-        stage == {[name |-> n, val |-> VarVal(StageScope(StageOf(c)), n)] : n \in ScopeVars(i, StageScope(StageOf(c)))}
+    LET comp == {[name |-> n, val |-> VarVal(CompScope(c.name), n)] : n \in ScopeVars(i, CompScope(c.name))}
+        stage == {[name |-> n, val |-> VarVal(StageScope(c.stage), n)] : n \in ScopeVars(i, StageScope(c.stage))}
         global ==      {[name |-> n, val |-> VarVal("global", n)] : n \in ScopeVars(i, "global")}
                   \cup {[name |-> "refVar", val |-> V("refvar", "", a.idx)] : a \in RefVars(i)}
     IN Overlay(comp, Overlay(stage, global))
@@ -336,31 +389,30 @@ ExpectedStatus(i) ==
       exe |-> IF HasExe(i.status[k + 1].form) THEN V("exe", "", k) ELSE NoVal,
       args |-> IF HasArgs(i.status[k + 1].form) THEN V("args", "", k) ELSE NoVal,
       refs |-> IF NRefs(i.status[k + 1].form) > 0 THEN V("list", "refs", NRefs(i.status[k + 1].form)) ELSE NoVal] :
-       k \in {j \in Stages : j < Len(i.status)}}
+       k \in StatusStages(i)}
 ExpectedOutput(i) ==
     {[name |-> o.name, datain |-> V("datain", o.datain, 0),
       desc |-> IF o.desc = "absent" THEN NoVal ELSE V("desc", o.desc, 0),
       type |-> IF o.type = "absent" THEN NoVal ELSE V("type", o.type, 0),
-      stages |-> IF o.stages = "absent" THEN NoVal
-                 ELSE V("stages", "", Cardinality(StageSet(o.stages)) * 10 + (IF 1 \in StageSet(o.stages) THEN 1 ELSE 0))] : o \in i.output}
+      stages |-> IF o.stages = "absent" THEN NoVal ELSE StagesVal(o.stages)] : o \in i.output}
 
 ExpectedView(i) ==
-    [comps |-> [c \in CompNames |-> [opts |-> Resolve(ExplicitOpts(i, c)), isRepeat |-> IsRepeat(ExplicitOpts(i, c)),
-                                    vars |-> ExpectedVars(i, c)]],
-     envs |-> {[name |-> EnvLower(e.name), vars |-> {[name |-> n, val |-> V("envvar", EnvLower(e.name), 0)] : n \in e.vars}] : e \in i.envs},
+    [comps |-> {[name |-> c.name, stage |-> c.stage, opts |-> Resolve(ExplicitOpts(i, c)), isRepeat |-> IsRepeat(ExplicitOpts(i, c)),
+                 vars |-> ExpectedVars(i, c)] : c \in CompsOf(i)},
+     envs |-> {[name |-> EnvLower(e.name), vars |-> {[name |-> n, val |-> EnvVarVal(EnvLower(e.name), n)] : n \in e.vars}] : e \in i.envs},
      apps |-> i.apps, venvs |-> i.venvs, status |-> ExpectedStatus(i), output |-> ExpectedOutput(i)]
 
 (* The instance a loaded description stands for (second round): options and variables exactly as loaded *)
 RedumpOf(L) ==
-    [sections |->      {[file |-> StageFile(StageOf(c)), section |-> c] : c \in CompNames}
-                  \cup {[file |-> EnvFile, section |-> e.name] : e \in L.envs}
+    [sections |->      {[file |-> StageFile(c.stage), section |-> c.name] : c \in L.comps}
+                  \cup {[file |-> EnvFile, section |-> EnvSection(e.name)] : e \in L.envs}
                   \cup {[file |-> StatusFile, section |-> StatusSection(s.stage)] : s \in L.status}
                   \cup {[file |-> OutputFile, section |-> o.name] : o \in L.output},
      lines |->
-          UNION {{Line(StageFile(StageOf(c)), c, KeyForPath(o.path), o.val) : o \in L.opts[c]} : c \in CompNames}
-     \cup UNION {{Line(StageFile(StageOf(c)), c, x.name, x.val) : x \in L.compVars[c]} : c \in CompNames}
-     \cup UNION {{Line(StageFile(k), "META", x.name, x.val) : x \in L.stageVars[k]} : k \in Stages}
-     \cup UNION {{Line(EnvFile, e.name, x.name, x.val) : x \in e.vars} : e \in L.envs}
+          UNION {{Line(StageFile(c.stage), c.name, KeyForPath(o.path), o.val) : o \in L.opts[c]} : c \in L.comps}
+     \cup UNION {{Line(StageFile(c.stage), c.name, x.name, x.val) : x \in L.compVars[c]} : c \in L.comps}
+     \cup UNION {{Line(StageFile(k), "META", x.name, x.val) : x \in L.stageVars[k]} : k \in AllStages}
+     \cup UNION {{Line(EnvFile, EnvSection(e.name), x.name, x.val) : x \in e.vars} : e \in L.envs}
      \cup (IF L.apps > 0 THEN {Line(EnvFile, "SANDBOX", "applications", V("list", "apps", L.apps))} ELSE {})
      \cup (IF L.venvs > 0 THEN {Line(EnvFile, "SANDBOX", "virtualenvs", V("list", "venvs", L.venvs))} ELSE {})
      \cup UNION {{Line(StatusFile, StatusSection(s.stage), kv[1], kv[2]) :
@@ -420,16 +472,20 @@ StageFilesSelfContained ==
 (* reachability witnesses (expected to FAIL): the families are not empty and the interesting shapes occur *)
 WitnessPairFolded == ~(phase = "loaded" /\ Cardinality(inst.opts) = 2 /\ inst.layer = "component")
 WitnessMigration == ~(phase = "loaded" /\ \E x \in inst.vars : x.scope = "global" /\ \E y \in inst.vars : y.scope = "stage1" /\ y.name = x.name)
+WitnessPrefixNames == ~(phase = "loaded" /\ {e.name : e \in inst.envs} = {"gcc", "gcc-7"})
+WitnessManyStages == ~(phase = "loaded" /\ inst.nstages = ManyStages /\ Len(inst.status) = ManyStages)
 
 (* emission for the conformance driver: the case and the expected explicit (non-default) part of the view *)
-ExplicitExpected(i, c) == {[path |-> o.path, src |-> o.val.src, a |-> o.val.a, n |-> o.val.n] : o \in {x \in ExplicitOpts(i, c) : x.val.src # "default"}}
+ExplicitExpected(i, c) == {[comp |-> c.name, path |-> o.path, src |-> o.val.src, a |-> o.val.a, n |-> o.val.n] : o \in {x \in ExplicitOpts(i, c) : x.val.src # "default"}}
 EmitCase ==
     (Emit /\ phase = "loaded") =>
-        PrintT(ToJson([fam |-> inst.fam, backend |-> inst.backend, layer |-> inst.layer, inject |-> inst.inject,
+        PrintT(ToJson([fam |-> inst.fam, kind |-> inst.kind, backend |-> inst.backend, layer |-> inst.layer, inject |-> inst.inject,
                        opts |-> {a.idx : a \in inst.opts},
                        vars |-> inst.vars, envs |-> inst.envs, apps |-> inst.apps, venvs |-> inst.venvs,
-                       status |-> inst.status, output |-> inst.output,
-                       expected |-> [explicit |-> [c \in CompNames |-> ExplicitExpected(inst, c)],
-                                     isRepeat |-> [c \in CompNames |-> IsRepeat(ExplicitOpts(inst, c))],
-                                     vars |-> [c \in CompNames |-> {[name |-> x.name, scope |-> x.val.a, src |-> x.val.src, n |-> x.val.n] : x \in ExpectedVars(inst, c)}]]]))
+                       status |-> inst.status, output |-> inst.output, comps |-> inst.comps, nstages |-> inst.nstages,
+                       expected |-> [comps |-> CompsOf(inst),
+                                     explicit |-> UNION {ExplicitExpected(inst, c) : c \in CompsOf(inst)},
+                                     isRepeat |-> {c.name : c \in {d \in CompsOf(inst) : IsRepeat(ExplicitOpts(inst, d))}},
+                                     vars |-> UNION {{[comp |-> c.name, name |-> x.name, scope |-> x.val.a, src |-> x.val.src, n |-> x.val.n] : x \in ExpectedVars(inst, c)} : c \in CompsOf(inst)},
+                                     envs |-> {EnvLower(e.name) : e \in inst.envs}]]))
 =============================================================================
